@@ -88,15 +88,24 @@ def _compile(args):
     return (src, r.returncode, r.stderr)
 
 
-def build_harness():
+# other harness variants (C16): name -> (directory prefix, compile flags, link flags)
+VARIANTS = {
+    "asan": ("h-", CXXFLAGS, ["-fsanitize=address,undefined"]),
+    # no sanitizer; harness/h_mallocfill.cpp interposes malloc/realloc/free and fills from $VERIF_FILL_SEED
+    "plain": ("hp-", ["-std=c++14", "-O1", "-g", "-fno-omit-frame-pointer", "-DCTRMML_VERIF", "-DVERIF_MALLOC_FILL"], []),
+}
+
+
+def build_harness(variant="asan"):
     """Compile /repo/src (library part) and the harness with ASan+UBSan; cached by content hash.
     Returns the path of the binary. A compile error in /repo/src is an infrastructure error
-    (the seeded changes are required to compile)."""
+    (the seeded changes are required to compile).  `variant` selects another flag set (VARIANTS)."""
+    prefix, cxxflags, ldflags = VARIANTS[variant]
     hs = harness_sources()
-    th = tree_hash(hs)
-    bdir = os.path.join(BUILD, "h-" + th)
+    th = tree_hash(hs, "" if variant == "asan" else variant + " ".join(cxxflags))
+    bdir = os.path.join(BUILD, prefix + th)
     exe = os.path.join(bdir, "vharness")
-    with Lock(".harness.lock"):
+    with Lock(".harness.lock" if variant == "asan" else ".harness-%s.lock" % variant):
         if os.path.exists(exe):
             return exe
         t0 = time.time()
@@ -106,17 +115,17 @@ def build_harness():
         jobs = []
         for s in repo_sources():
             if s.endswith(".cpp") and os.path.basename(s) not in LIB_EXCLUDE:
-                jobs.append((s, os.path.join(tmp, "obj", "lib_" + os.path.basename(s) + ".o"), CXXFLAGS))
+                jobs.append((s, os.path.join(tmp, "obj", "lib_" + os.path.basename(s) + ".o"), cxxflags))
         for s in hs:
             if s.endswith(".cpp"):
-                jobs.append((s, os.path.join(tmp, "obj", "h_" + os.path.basename(s) + ".o"), CXXFLAGS))
+                jobs.append((s, os.path.join(tmp, "obj", "h_" + os.path.basename(s) + ".o"), cxxflags))
         with ThreadPoolExecutor(max_workers=16) as ex:
             res = list(ex.map(_compile, jobs))
         bad = [(s, e) for s, rc, e in res if rc != 0]
         if bad:
             raise InfraError("harness compile failed: %s\n%s" % (bad[0][0], bad[0][1][-3000:]))
         objs = [j[1] for j in jobs]
-        r = subprocess.run(["g++", "-fsanitize=address,undefined"] + objs + ["-o", os.path.join(tmp, "vharness")],
+        r = subprocess.run(["g++"] + ldflags + objs + ["-o", os.path.join(tmp, "vharness")],
                            capture_output=True, text=True)
         if r.returncode != 0:
             raise InfraError("harness link failed:\n" + r.stderr[-3000:])
@@ -125,11 +134,11 @@ def build_harness():
         os.rename(tmp, bdir)
         # prune older harness builds
         for d in os.listdir(BUILD):
-            if d.startswith("h-") and d != "h-" + th and not d.endswith(".tmp"):
+            if d.startswith(prefix) and d != prefix + th and not d.endswith(".tmp"):
                 p = os.path.join(BUILD, d)
                 if time.time() - os.path.getmtime(p) > 3600:
                     shutil.rmtree(p, ignore_errors=True)
-        log("harness built in %.1fs (%s)" % (time.time() - t0, th))
+        log("harness%s built in %.1fs (%s)" % ("" if variant == "asan" else " variant " + variant, time.time() - t0, th))
         return exe
 
 
